@@ -9,6 +9,7 @@ import (
 	"strings"
 
 	"go.lstv.dev/util/test"
+	_ "verif/libdefaults" // installs mc.LibReset when built with the hooks
 	"verif/mc"
 )
 
